@@ -133,6 +133,11 @@ fn pattern_case<const N: usize>(ctx: &mut Ctx, idx: usize) {
     opts_b[0] = Some(ts_a[1]);
     opts_b[1] = Some(ts_a[2]);
     opts_b[2] = Some(p_mul * ts_a[1]);
+    // equality *within* one proof: slot 3 repeats slot 0 under the same commitment scalar (equal response scalars)
+    if N >= 4 {
+        ms_b[3] = ms_b[0];
+        opts_b[3] = opts_b[0];
+    }
     let bb = SignatureRequestProofBuilder::<N>::generate_proof_commitments(&mut rng, wire::msg::<N>(&ms_b), &opts_b, kp.public_key());
     let ts_b = bb.conjunction_commitment_scalars().to_vec();
     let bf_b = bb.message_blinding_factor().as_scalar();
@@ -167,7 +172,7 @@ fn pattern_case<const N: usize>(ctx: &mut Ctx, idx: usize) {
     let ok_a = pa.verify_knowledge_of_opening(&pp, ch2);
     let ok_b = pb.verify_knowledge_of_opening(kp.public_key(), ch2).is_some();
     let ok_r = rc.verify_range_constraint(&rp, ch2, za[0]);
-    let eq = zb[0] == za[1];
+    let eq = zb[0] == za[1] && (N < 4 || zb[3] == zb[0]);
     let add = zb[1] == za[2] + c * p_add;
     let mul = zb[2] == p_mul * za[1];
     let sum = N < 4 || za[N - 1] == za[1] + za[2];
